@@ -150,6 +150,18 @@ def run(tier, v):
     thorough = tier == "thorough"
     seed = vlib.seed()
 
+    # the TLC runs of the body model (small) go on in the background while the routing part is checked
+    from concurrent.futures import ThreadPoolExecutor
+    pool = ThreadPoolExecutor(max_workers=2)
+    gen3 = os.path.join(wd, "gen_body.jsonl")
+    gen4 = os.path.join(wd, "gen_body_sim.jsonl")
+    os.makedirs(wd, exist_ok=True)
+    f_mcb = pool.submit(vlib.tlc, PID, "mc_body", "MC_Config", "MC_Config_body_thorough.cfg" if thorough else "MC_Config_body.cfg",
+                        workers=4, timeout=900 if thorough else 240, coverage=True)
+    f_g3 = pool.submit(vlib.gen_behaviours, PID, "gen_body", "Gen_Config", "Gen_Config_body_thorough.cfg" if thorough else "Gen_Config_body.cfg",
+                       gen3, workers=4, timeout=900)
+    f_g4 = pool.submit(_gen_sim, "gen_body_sim", "Sim_Config_body.cfg", gen4, 600 if thorough else 60, seed, 4)
+
     # 1. the design
     mc = vlib.tlc(PID, "mc", "MC_Config", "MC_Config_thorough.cfg" if thorough else "MC_Config.cfg",
                   workers=8, timeout=900 if thorough else 240, coverage=True)
@@ -159,8 +171,7 @@ def run(tier, v):
         raise vlib.Inconclusive("MC_Config: actions never taken: %s" % dead)
     mcc = vlib.tlc(PID, "mc_coord", "MC_Config", "MC_Config_coord.cfg", workers=4, timeout=240, coverage=True)
     vlib.tlc_must_pass(mcc, "MC_Config_coord")
-    mcb = vlib.tlc(PID, "mc_body", "MC_Config", "MC_Config_body_thorough.cfg" if thorough else "MC_Config_body.cfg",
-                   workers=8, timeout=900 if thorough else 240, coverage=True)
+    mcb = f_mcb.result()
     vlib.tlc_must_pass(mcb, "MC_Config_body")
     dead = [a for a, (d, g) in mcb.coverage.items() if g == 0]
     if dead:
@@ -193,24 +204,21 @@ def run(tier, v):
     log("  Gen: %d configurations enumerated, %d simulated (deeper edits)" % (g1.behaviours, g2.behaviours))
     if g1.behaviours < 2000 or g2.behaviours < 200:
         raise vlib.Inconclusive("Gen produced too few configurations (%d, %d)" % (g1.behaviours, g2.behaviours))
-    reps = []
-    for name, path in (("exh", gen1), ("sim", gen2)):
-        r, _ = _run(binp, "TestReplay", ["-in", path], os.path.join(wd, "replay_%s.json" % name), "replay")
-        reps.append(r)
-        J.take("load(%s)" % name, r)
     # 3b. time interval bodies and secret-bearing fields printed by TLC (SpecBody), same replay
-    gen3 = os.path.join(wd, "gen_body.jsonl")
-    g3 = vlib.gen_behaviours(PID, "gen_body", "Gen_Config", "Gen_Config_body_thorough.cfg" if thorough else "Gen_Config_body.cfg",
-                             gen3, workers=8, timeout=900)
-    gen4 = os.path.join(wd, "gen_body_sim.jsonl")
-    g4 = _gen_sim("gen_body_sim", "Sim_Config_body.cfg", gen4, 600 if thorough else 60, seed, workers=4)
+    g3, g4 = f_g3.result(), f_g4.result()
     if g3.behaviours < 3000 or g4.behaviours < 300:
         raise vlib.Inconclusive("Gen produced too few interval bodies / secret documents (%d, %d)" % (g3.behaviours, g4.behaviours))
-    breps = []
-    for name, path, env in (("body", gen3, {"C17_ALL_SITES": "1"}), ("body_sim", gen4, None)):
-        r, _ = _run(binp, "TestReplay", ["-in", path], os.path.join(wd, "replay_%s.json" % name), "replay", env=env)
-        breps.append(r)
+    # the four replays are independent processes
+    jobs = [("exh", gen1, None), ("sim", gen2, None), ("body", gen3, {"C17_ALL_SITES": "1"}), ("body_sim", gen4, None)]
+    rpool = ThreadPoolExecutor(max_workers=4)
+    futs = [rpool.submit(_run, binp, "TestReplay", ["-in", path], os.path.join(wd, "replay_%s.json" % name), "replay", env)
+            for name, path, env in jobs]
+    reps, breps = [], []
+    for (name, path, env), f in zip(jobs, futs):
+        r, _ = f.result()
         reps.append(r)
+        if name.startswith("body"):
+            breps.append(r)
         J.take("load(%s)" % name, r)
     bc = breps[0]["counters"]
     if bc.get("sites_unknown_to_spec", 0) or bc.get("sites_plain_never_accepted", 0):
